@@ -521,9 +521,9 @@ def u_parser_overrides(ip: Interp, th: ControlTheory):
                 if isinstance(n, _ast.Attribute) and isinstance(n.value, _ast.Name) and n.value.id == "sys":
                     bad.append(f"{q}:sys.{n.attr}")
     ip.require(base, "callgraph:no-print/sys.exit/sys.stdout/sys.stderr-in-parser.py-and-session.py", z3.BoolVal(not bad), P, meta={"found": bad})
-    # sub-parsers inherit the session stream: add_class_commands passes stream/terminal_width on
-    src = ip.repo.sources["parser"]
-    ip.require(base, "callgraph:add_class_commands-hands-the-session-stream-to-every-sub-parser", z3.BoolVal("stream=self._stream" in src and "**common_kwargs" in src), P)
+    # (that add_class_commands hands the session stream / width to every sub-parser is an obligation of the add_class_commands
+    # unit: `add_*_command:called-for-the-member-itself-with-the-session-stream-and-width`; a former check of the source
+    # spelling here was brittle and has been removed)
 
 
 # ======================================================================================================
@@ -687,19 +687,6 @@ def u_add_class_commands(ip: Interp, th: ControlTheory):
                    z3.ForAll([k], v.has(k) == z3.Exists([j], z3.And(0 <= j, j < members.n, name(j) == k, exposed(j)))) if isinstance(v, DictV) else z3.BoolVal(False), P)
 
 
-@unit("parser.add_function_command.name", ("C16",), [PAR + "add_function_command", PAR + "add_property_command"])
-def u_command_name(ip: Interp, th: ControlTheory):
-    """the command name is the member's name with underscores as dashes (mechanical: both functions derive the name by
-    `<member>.__name__.replace("_", "-")` and pass it as `name`/`prog`)"""
-    import ast as _ast
-
-    for q, attr in ((PAR + "add_function_command", "function"), (PAR + "add_property_command", "fget")):
-        fi = ip.repo.get(q)
-        found = False
-        for n in _ast.walk(fi.node):
-            if (isinstance(n, _ast.Call) and isinstance(n.func, _ast.Attribute) and n.func.attr == "setdefault" and len(n.args) == 2
-                    and isinstance(n.args[0], _ast.Constant) and n.args[0].value == "name"):
-                src = _ast.unparse(n.args[1])
-                found = found or (src.endswith('.__name__.replace("_", "-")') or src.endswith(".__name__.replace('_', '-')")) and attr in src
-        st = th.initial()
-        ip.require(st, f"{q.split('.')[-1]}:name-is-member-name-with-dashes", z3.BoolVal(found), ("C16",))
+# (removed: a unit that checked the *spelling* `setdefault("name", <member>.__name__.replace("_", "-"))` in the source.  The same
+# fact is proved semantically by the units parser.ControlParser.add_function_command / add_property_command
+# (control_units2.py); the syntactic check raised a false alarm on a behaviour-preserving refactoring (harmless seed H11).)
